@@ -132,6 +132,33 @@ var externalWriters = map[string][]int{
 	"(github.com/emersion/go-ical.Props).SetText": {0}, "(github.com/emersion/go-ical.Props).SetDateTime": {0},
 }
 
+// resliceBases: the slices x such that v may be x[:k] (through the loop phi of
+// `out = append(out, ...)` and through earlier appends).
+func resliceBases(v ssa.Value, depth int, seen map[ssa.Value]bool) []ssa.Value {
+	if depth > 6 || seen[v] {
+		return nil
+	}
+	seen[v] = true
+	switch x := v.(type) {
+	case *ssa.Slice:
+		if x.High != nil {
+			return []ssa.Value{x.X}
+		}
+		return resliceBases(x.X, depth+1, seen)
+	case *ssa.Phi:
+		var out []ssa.Value
+		for _, e := range x.Edges {
+			out = append(out, resliceBases(e, depth+1, seen)...)
+		}
+		return out
+	case *ssa.Call:
+		if bi, ok := x.Common().Value.(*ssa.Builtin); ok && bi.Name() == "append" && len(x.Common().Args) > 0 {
+			return resliceBases(x.Common().Args[0], depth+1, seen)
+		}
+	}
+	return nil
+}
+
 func (c *Ctx) Effects() *effectsInfo {
 	if c.eff != nil {
 		return c.eff
@@ -175,6 +202,15 @@ func (c *Ctx) Effects() *effectsInfo {
 					case "copy", "delete", "clear":
 						if len(cc.Args) > 0 {
 							record(fn, in, cc.Args[0], "builtin:"+bi.Name())
+						}
+					case "append":
+						// append(x[:k], ...) — the in-place filtering idiom —
+						// writes into the spare capacity of x's backing
+						// array, which the owner of x still sees
+						if len(cc.Args) > 0 {
+							for _, base := range resliceBases(cc.Args[0], 0, map[ssa.Value]bool{}) {
+								record(fn, in, base, "append-spare")
+							}
 						}
 					}
 				}
